@@ -309,7 +309,7 @@ class JsonKeyStore(KeyStore):
         # Then, if the namespace is the default namespace, and there's
         # only one entry in the db, use that
         if self.namespace == self.DEFAULT_NAMESPACE and len(db) == 1:
-            return next(iter(db.items()))
+            return (db, next(iter(db.values())))
 
         # Finally, just create an empty key map for the namespace
         key_map: dict[str, dict[str, Any]] = {}
